@@ -103,7 +103,6 @@ pub fn check(cx: &Cx, rep: &mut Report) {
                     !k.is_empty() && k.keys().all(|h| *h != Hk::Addr && *h != Hk::Owning)
                 });
                 let Some(rf) = reduced_from else { continue };
-                let k = kinds_at(cx, af.tag, rf + 1);
                 rep.premise("C15.R3.timers_keep_firing");
                 nontrivial = true;
                 let periodic = t.kind != "delayed_send";
